@@ -23,27 +23,33 @@ def _digits(ctx, name, n):
 def _val(ds):
     v = z3.IntVal(0)
     for t in ds:
-        v = v * 10 + (t - 48)
-    return v
+        v = v * 10 + ((t - 48) if not isinstance(t, str) else (ord(t) - 48))
+    return z3.simplify(v)
 
 
 def _render(ctx, ds):
     """decimal text of the number spelled by digits ds, without leading zeros (harness-side)"""
     k = 0
-    while k < len(ds) - 1 and bool(B(ds[k] == 48)):
+    while k < len(ds) - 1 and (ds[k] == '0' if isinstance(ds[k], str) else bool(B(ds[k] == 48))):
         k += 1
     return ds[k:]
 
 
-def ob_run2d_v(lenN, lenM, lenP, low):
+def ob_run2d_v(lenN, lenM, lenP, low, fixed=False):
     def fn(ctx):
         from pydl.pydlutils.sdss import sdss_specobjid, unwrap_specobjid
         dN, dM, dP = _digits(ctx, 'N', lenN), _digits(ctx, 'M', lenM), _digits(ctx, 'P', lenP)
+        if fixed:
+            # quick tier: the digits are concretised on demand (the solver enumerates all 10^k spellings)
+            dN, dM, dP = ([z3.IntVal(ctx.concretize(t)) for t in ds] for ds in (dN, dM, dP))
+            dN, dM, dP = ([chr(t.as_long()) for t in ds] for ds in (dN, dM, dP))
         run2d = S('v', dN, '_', dM, '_', dP)
         plate, fiber, mjd = ctx.int64('plate'), ctx.int64('fiber'), ctx.int64('mjd')
         for v, hi in ((plate, 2 ** 14), (fiber, 2 ** 12)):
             ctx.add(z3.And(v.v >= 0, v.v < hi))
         ctx.add(z3.And(mjd.v >= 50000, mjd.v < 50000 + 2 ** 14))
+        if fixed:      # quick tier: concrete plate / fibre / MJD, the run2d digits stay symbolic
+            ctx.add(z3.And(plate.v == 4055, fiber.v == 408, mjd.v == 55359))
         d = {'fn': 'run2d_v', 'lenN': lenN, 'lenM': lenM, 'lenP': lenP, 'low': low}
         ctx.detail = d
         kw = {}
@@ -77,7 +83,7 @@ def ob_run2d_v(lenN, lenM, lenP, low):
         expected = S('v', rn, '_', rm, '_', rp)
         ctx.require(text_eq(got, expected), 'unwrap_specobjid: run2d read back as vN_M_P with the packed components', d)
         ctx.require(z3.SignExt(32, un.plate[0].term) == z3.Extract(63, 0, plate.v), 'unwrap_specobjid: plate', d)
-    return Obligation('specobjid run2d=vN_M_P lens=%d,%d,%d low=%s' % (lenN, lenM, lenP, low), fn,
+    return Obligation('specobjid run2d=vN_M_P lens=%d,%d,%d low=%s fixed=%d' % (lenN, lenM, lenP, low, fixed), fn,
                       bounds='every digit choice, every in-range plate/fiber/mjd', max_paths=200000, solver_timeout_ms=120000, max_seconds=1700)
 
 
@@ -133,7 +139,7 @@ def ob_decimal_ids(kind, nd):
 
 def obligations(tier, seed):
     q = tier == 'quick'
-    obs = [ob_run2d_v(1, 1, 1, None), ob_run2d_intstring(3), ob_run2d_intstring(5),
+    obs = [ob_run2d_v(1, 1, 1, None, fixed=q), ob_run2d_intstring(3), ob_run2d_intstring(5),
            ob_decimal_ids('spec', 19), ob_decimal_ids('obj', 19)]
     if not q:
         obs += [ob_run2d_v(1, 2, 1, 'line'), ob_run2d_v(1, 2, 2, 'index'), ob_run2d_v(2, 1, 1, None), ob_run2d_v(1, 1, 2, None), ob_run2d_intstring(1), ob_run2d_intstring(4),
